@@ -15,6 +15,7 @@ package main
 
 import (
 	"fmt"
+	"os"
 	"go/token"
 	"go/types"
 	"math"
@@ -186,6 +187,12 @@ func (p *Prog) globalInput() symInput {
 					}
 				case *ssa.Call:
 					vals["G:"+g.Name()] = sv{k: 'I', tup: []sv{{k: 'p', addr: "R:" + g.Name()}}}
+				default:
+					// initialised with something that is not modelled (a map or array literal …): the value is
+					// unknown, not zero — an evaluation that depends on it fails instead of taking a wrong turn
+					if !strings.HasPrefix(g.Name(), "init$") {
+						vals["G:"+g.Name()] = sv{k: 'u'}
+					}
 				}
 			}
 		}
@@ -617,8 +624,102 @@ func (p *Prog) cachedWireDecoders() []*ssa.Function {
 	return d
 }
 
-// decoderReplay evaluates T.UnmarshalBinary on a fresh packet (only the header
-// byte set, as the dispatch does) against the token stream.
+// specVBI: the variable byte integer encoding of n (MQTT v5.0 §1.5.5).
+func specVBI(n int64) []int64 {
+	var out []int64
+	for {
+		d := n % 128
+		n /= 128
+		if n > 0 {
+			d |= 128
+		}
+		out = append(out, d)
+		if n == 0 {
+			return out
+		}
+	}
+}
+
+// keepsDestOnSuccess: the wire decoder has a path from entry to a successful
+// return (nil error) on which nothing is stored through its receiver — e.g. a
+// string decoder that returns early on length 0.  On such a path the
+// destination keeps whatever it held before the call.
+func (p *Prog) keepsDestOnSuccess(dec *ssa.Function) bool {
+	key := "keepsdest:" + qname(dec)
+	if v, ok := p.cache[key]; ok {
+		return v.(bool)
+	}
+	res := false
+	if len(dec.Params) > 0 && dec.Blocks != nil {
+		recv := dec.Params[0]
+		stores := func(b *ssa.BasicBlock) bool {
+			for _, ins := range b.Instrs {
+				switch x := ins.(type) {
+				case *ssa.Store:
+					if rootOfAddr(x.Addr) == ssa.Value(recv) {
+						return true
+					}
+				case *ssa.Call:
+					for _, a := range x.Call.Args {
+						if a == ssa.Value(recv) {
+							return true // handed on: assume written
+						}
+					}
+					if x.Call.IsInvoke() && x.Call.Value == ssa.Value(recv) {
+						return true
+					}
+				}
+			}
+			return false
+		}
+		seen := map[*ssa.BasicBlock]bool{}
+		var walk func(b *ssa.BasicBlock)
+		walk = func(b *ssa.BasicBlock) {
+			if seen[b] || res {
+				return
+			}
+			seen[b] = true
+			if stores(b) {
+				return
+			}
+			if ret, ok := terminator(b).(*ssa.Return); ok {
+				if len(ret.Results) == 1 {
+					if cst, ok := ret.Results[0].(*ssa.Const); ok && cst.Value == nil {
+						res = true
+					}
+				}
+				return
+			}
+			for _, s := range b.Succs {
+				walk(s)
+			}
+		}
+		walk(dec.Blocks[0])
+	}
+	p.cache[key] = res
+	return res
+}
+
+// rootOfAddr follows field/index address computations back to their base pointer.
+func rootOfAddr(v ssa.Value) ssa.Value {
+	for {
+		switch x := v.(type) {
+		case *ssa.FieldAddr:
+			v = x.X
+		case *ssa.IndexAddr:
+			v = x.X
+		default:
+			return v
+		}
+	}
+}
+
+// decoderReplay evaluates ReadPacket itself on an abstract stream: the first
+// byte, the variable byte integer encoding of the body length (both as
+// concrete bytes, so the library's own header reader, dispatch and
+// zero-length handling are what is evaluated) and a body that is the token
+// stream.  The packet-level decoder reached through the dispatch runs with the
+// wire primitives replaced by their contracts.
 func (p *Prog) decoderReplay(tn string, header sv, toks []wireToken, total int64, base map[string]sv) *replayResult {
 	res := &replayResult{}
 	um := p.Method(tn, "UnmarshalBinary")
@@ -626,29 +727,69 @@ func (p *Prog) decoderReplay(tn string, header sv, toks []wireToken, total int64
 		res.Why = "no UnmarshalBinary"
 		return res
 	}
+	rp, msg := p.readPacketAnchor()
+	if rp == nil {
+		res.Why = msg
+		return res
+	}
 	ctx := p.newSym(p.globalInput())
 	ctx.limit = 400000
 	for k, v := range base {
 		ctx.mem[k] = v // the values the tokens carry live in the original state's memory (read only)
 	}
-	res.Recv = "Q"
-	obj := p.Pkg.Scope().Lookup(tn)
-	ctx.mem["Q"] = zeroOf(obj.Type(), "Q")
-	if hf, _, ok := p.headerField(tn); ok {
-		ctx.mem[fmt.Sprintf("Q.f%d", hf)] = header
-	}
+	prefix := append([]int64{header.i & 0xff}, specVBI(total)...)
+	spos := 0          // position in the stream
+	bodyAddr := "\x00" // backing of the buffer the body was read into
+	bodyRead := false
 	pos := 0
-	if total == 0 {
-		// remaining length 0: the dispatch returns the bare packet without decoding
-		res.Err = sv{k: 'z'}
-		res.Mem, res.Maps = ctx.mem, ctx.maps
-		return res
-	}
+	var offs int64 // offset inside the body at which the next token starts
+	var bodyErr *sv
+	inBody := false
 	ctx.hook = func(c *symCtx, callee *ssa.Function, args []sv) ([]sv, bool, bool) {
-		if !p.isWireDecoder(callee) {
+		switch fullName(callee) {
+		case "io.ReadFull", "io.ReadAtLeast":
+			if len(args) < 2 || args[0].k != 'I' || len(args[0].tup) != 1 || args[0].tup[0].addr != "R:stream" || args[1].k != 's' {
+				return nil, true, c.fail("%s on something else than the stream", fullName(callee))
+			}
+			n := args[1].i
+			eof := sv{k: 'I', tup: []sv{{k: 'p', addr: "R:eof"}}}
+			switch {
+			case n == 0:
+				if spos == len(prefix) && !bodyRead {
+					bodyAddr, bodyRead = args[1].addr, true
+				}
+				return []sv{{k: 'i', i: 0}, {k: 'z'}}, true, true
+			case spos+int(n) <= len(prefix):
+				for k := int64(0); k < n; k++ {
+					c.mem[fmt.Sprintf("%s[%d]", args[1].addr, args[1].off+k)] = sv{k: 'i', i: prefix[spos]}
+					spos++
+				}
+				return []sv{{k: 'i', i: n}, {k: 'z'}}, true, true
+			case spos == len(prefix) && !bodyRead && n == total:
+				bodyAddr, bodyRead = args[1].addr, true
+				return []sv{{k: 'i', i: n}, {k: 'z'}}, true, true
+			case spos == len(prefix) && !bodyRead && n > total:
+				bodyRead = true
+				return []sv{{k: 'i', i: total}, eof}, true, true
+			case bodyRead:
+				return []sv{{k: 'i', i: 0}, eof}, true, true
+			}
+			return nil, true, c.fail("a read of %d byte(s) at stream position %d straddles the fixed header and the body (body length %d)", n, spos, total)
+		}
+		if callee == um && !inBody {
+			inBody = true
+			rs, ok := c.evalPure(callee, args, nil, 1)
+			inBody = false
+			if ok && len(rs) == 1 {
+				e := rs[0]
+				bodyErr = &e
+			}
+			return rs, true, ok
+		}
+		if !p.isWireDecoder(callee) || len(args) != 2 || args[1].k != 's' || args[1].addr != bodyAddr {
 			return nil, false, true
 		}
-		if len(args) != 2 || args[0].k != 'p' || args[1].k != 's' {
+		if args[0].k != 'p' {
 			return nil, true, c.fail("wire decoder called with unexpected arguments")
 		}
 		missing := sv{k: 'I', tup: []sv{{k: 'p', addr: "R:missing"}}}
@@ -656,6 +797,10 @@ func (p *Prog) decoderReplay(tn string, header sv, toks []wireToken, total int64
 			return []sv{missing}, true, true
 		}
 		tk := toks[pos]
+		if args[1].off != offs && res.Mismatch == "" {
+			res.Mismatch = fmt.Sprintf("token %d (%s, %s) starts at offset %d of the body but is read at offset %d: an earlier item advanced the reader by another width than was written", pos, tk.Kind, tk.What, offs, args[1].off)
+			return []sv{missing}, true, true
+		}
 		pt := callee.Signature.Recv().Type().Underlying().(*types.Pointer)
 		dk := p.wireKindOf(pt.Elem())
 		if namedOf(pt.Elem()) != nil && namedOf(pt.Elem()).Obj().Name() == "Ident" {
@@ -678,24 +823,61 @@ func (p *Prog) decoderReplay(tn string, header sv, toks []wireToken, total int64
 			}
 			tk.Val = sv{k: 'b', b: tk.Val.i == 1}
 		}
-		// string/binary tokens of length 0 leave the destination as it is (as the library's decoder does) — the
-		// width the reader then asks for is that of the destination; mimic by storing an empty value
 		v := tk.Val
 		if v.k == 's' {
 			v.b = false
 		}
-		c.mem[args[0].addr] = v
+		// a decoder that can succeed without storing (a string decoder returning early on length 0) leaves the
+		// destination as it was: whatever the dispatch or a constructor put there survives
+		keep := false
+		if v.k == 's' && v.i == 0 && p.keepsDestOnSuccess(callee) {
+			if old, ok := c.mem[args[0].addr]; ok && old.k == 's' && old.i > 0 {
+				keep = true
+			}
+		}
+		if os.Getenv("MQV_REPLAY") != "" {
+			fmt.Fprintf(os.Stderr, "replay %s tok %d %s %s len=%d dest=%s old=%v keep=%v\n", tn, pos, tk.Kind, tk.What, v.i, args[0].addr, c.mem[args[0].addr], keep)
+		}
+		if !keep {
+			c.mem[args[0].addr] = v
+		}
 		pos++
+		offs += tk.Width
 		return []sv{{k: 'z'}}, true, true
 	}
-	rs, ok := ctx.evalPure(um, []sv{{k: 'p', addr: "Q"}, {k: 's', i: total, addr: "DATA"}}, nil, 0)
+	rs, ok := ctx.evalPure(rp, []sv{{k: 'I', tup: []sv{{k: 'p', addr: "R:stream"}}}}, nil, 0)
 	res.Consumed = pos
 	res.Mem, res.Maps = ctx.mem, ctx.maps
 	if !ok {
+		if bodyErr != nil && bodyErr.k != 'z' {
+			res.Err = *bodyErr // the failure is in rendering the error message
+			return res
+		}
 		res.Why = ctx.why
 		return res
 	}
-	res.Err = rs[0]
+	if len(rs) != 2 {
+		res.Why = "ReadPacket does not return (packet, error)"
+		return res
+	}
+	res.Err = rs[1]
+	if rs[1].k != 'z' {
+		return res
+	}
+	pk := rs[0]
+	if pk.k != 'I' || pk.dt == nil || len(pk.tup) != 1 || pk.tup[0].k != 'p' || pk.tup[0].addr == "" {
+		res.Why = "ReadPacket returns no packet although it reports no error"
+		return res
+	}
+	if nt := namedOf(pk.dt); nt == nil || nt.Obj().Name() != tn {
+		res.Mismatch = fmt.Sprintf("first byte %#02x yields a %s, not a %s", header.i&0xff, typeStr(pk.dt), tn)
+		return res
+	}
+	if total > 0 && bodyErr == nil {
+		res.Mismatch = fmt.Sprintf("a frame with a body of %d byte(s) is returned without being decoded", total)
+		return res
+	}
+	res.Recv = pk.tup[0].addr
 	return res
 }
 
